@@ -105,7 +105,10 @@ PROPS_RAW = {
                                      "deferred_rw"], 100000, 2500000) +
             # the other corner of the template-argument space: word-sized trivially copyable
             # element types (and std::string), race detector on
-            [J("atomic_small", "wl_atomic_small", 100000, 2500000, races=1)]},
+            [J("atomic_small", "wl_atomic_small", 100000, 2500000, races=1)] +
+            # an operation that fails with an exception from the payload's copy/assignment must
+            # leave the register holding a value somebody stored
+            wrappers("throw", ["atomic_guarded", "guarded", "ordered_guarded"], 30000, 800000)},
     "C03": {"jobs": [J("lr.std", "wl_lr", 200000, 6000000, mode="std"),
                      # the statement quantifies over the memory-model behaviours of the atomics:
                      # an unordered reader/writer pair on the payload is a C03 violation too
@@ -115,6 +118,7 @@ PROPS_RAW = {
                      # "applied one at a time to the same sequence of states" also when a functor
                      # throws (roll-back and repair paths of modify())
                      J("lr.throw", "wl_lr", 60000, 1500000, mode="throw"),
+                     J("lr.mv.throw", "wl_lr_mv", 30000, 800000),
                      # counter-width boundary: one thread holding 2 .. 131072 shared handles
                      # (long runs: few of them, own step limits, no twins)
                      J("lr.many", "wl_lr", 64, 600, mode="many", plain=0, limits=(1500000, 2500000),
@@ -173,7 +177,9 @@ PROPS_RAW = {
                      J("trip.static", "wl_trip", 6000, 150000, mode="static", fork_each=1),
                      # the declared line's trigger is created during static initialisation
                      J("trip.static.early", "wl_trip_early", 2000, 50000, mode="static", fork_each=1)]},
-    "C20": {"jobs": [J("lr.throw", "wl_lr", 150000, 4000000, mode="throw")] +
+    "C20": {"jobs": [J("lr.throw", "wl_lr", 150000, 4000000, mode="throw"),
+                     # payload with a cheap noexcept move and an expensive copy (std::vector)
+                     J("lr.mv.throw", "wl_lr_mv", 60000, 1500000)] +
             wrappers("throw", ["guarded", "guarded_opt", "ordered_guarded", "atomic_guarded",
                                "shared_guarded"], 50000, 1200000) +
             [J("deferred.throw", "wl_deferred", 80000, 2000000, mode="throw"),
